@@ -54,6 +54,16 @@ fn two_forms(setup_x: &str, op: &str, with: &str) -> Vec<Base> {
 }
 
 pub fn observe_value(expr: &str, v: &V, depth: usize, out: &mut String) {
+    // a zero is observed through the sign of its reciprocal (the spelling of -0 is U-numtext)
+    if let V::Num(n) = v {
+        if *n == 0.0 {
+            out.push_str(&format!("say 1 over {} is greater than 0\n", expr));
+            if n.is_sign_negative() {
+                out.push_str(&format!("say {} plus 1\n", expr));
+                return;
+            }
+        }
+    }
     out.push_str(&format!("say {}\n", expr));
     match v {
         V::Arr(a) => {
